@@ -396,14 +396,15 @@ class CFG:
         return out
 
     def reach(self, srcs: Iterable[int], avoid: Iterable[int] = (), ignore: Iterable[str] = ("exc-out", "raise-out"),
-              through_src: bool = True) -> set[int]:
+              ignore_edges: Iterable[tuple[int, str]] = ()) -> set[int]:
         avoid_s = set(avoid)
         ign = set(ignore)
+        ige = set(ignore_edges)
         seen: set[int] = set()
-        todo = deque()
+        todo: deque = deque()
         for s in srcs:
             for b, lab in self.succ[s]:
-                if lab in ign or b in avoid_s:
+                if lab in ign or b in avoid_s or (s, lab) in ige:
                     continue
                 todo.append(b)
         while todo:
@@ -412,21 +413,23 @@ class CFG:
                 continue
             seen.add(x)
             for b, lab in self.succ[x]:
-                if lab in ign or b in avoid_s or b in seen:
+                if lab in ign or b in avoid_s or b in seen or (x, lab) in ige:
                     continue
                 todo.append(b)
         return seen
 
     def find_path(self, src: int, dsts: Iterable[int], avoid: Iterable[int] = (),
-                  ignore: Iterable[str] = ("exc-out", "raise-out")) -> Optional[list[tuple[int, str]]]:
+                  ignore: Iterable[str] = ("exc-out", "raise-out"),
+                  ignore_edges: Iterable[tuple[int, str]] = ()) -> Optional[list[tuple[int, str]]]:
         """Shortest non-empty path from src to any of dsts as [(node, label of the edge into it)]."""
         dst_s = set(dsts)
         avoid_s = set(avoid)
         ign = set(ignore)
+        ige = set(ignore_edges)
         prev: dict[int, tuple[int, str]] = {}
         todo: deque = deque()
         for b, lab in self.succ[src]:
-            if lab in ign or b in avoid_s or b in prev:
+            if lab in ign or b in avoid_s or b in prev or (src, lab) in ige:
                 continue
             prev[b] = (src, lab)
             todo.append(b)
@@ -444,7 +447,7 @@ class CFG:
                 out.append((src, ""))
                 return out[::-1]
             for b, lab in self.succ[x]:
-                if lab in ign or b in avoid_s or b in prev:
+                if lab in ign or b in avoid_s or b in prev or (x, lab) in ige:
                     continue
                 prev[b] = (x, lab)
                 todo.append(b)
